@@ -9,8 +9,18 @@ import shutil
 import subprocess
 import sys
 
-SRC = sys.argv[1]
-only = set(sys.argv[2:])
+args = sys.argv[1:]
+PREFIX, FROZEN = "", {}
+if "--prefix" in args:
+    i = args.index("--prefix")
+    PREFIX = args[i + 1]
+    del args[i : i + 2]
+if "--frozen" in args:
+    i = args.index("--frozen")
+    FROZEN = json.load(open(args[i + 1]))
+    del args[i : i + 2]
+SRC = args[0]
+only = set(args[1:])
 pids = [c["property_id"] for c in json.load(open("/verif/MANIFEST.json"))["checks"]]
 
 
@@ -52,13 +62,17 @@ for prop in sorted(os.listdir(SRC)):
                     res = list(ex.map(run_check, pids))
             finally:
                 subprocess.run(["git", "-C", "/repo", "checkout", "--", "."], check=True)
-        out = os.path.join("/verif/seeded", prop, m)
+        out = os.path.join("/verif/seeded", prop, PREFIX + m)
         os.makedirs(out, exist_ok=True)
         for f in ("patch.diff", "demo.py", "confirm.log"):
             shutil.copy(os.path.join(sd, f), os.path.join(out, f))
         meta = json.load(open(os.path.join(sd, "meta.json")))
         base = re.search(r"base (\w+)", txt)
         meta["breaks_property"] = prop
+        meta["round"] = 2 if PREFIX.startswith("r2") else (3 if PREFIX.startswith("r3") else 1)
+        if f"{prop}/{m}" in FROZEN:
+            fz = FROZEN[f"{prop}/{m}"]
+            meta["frozen_checks"] = {"verif_commit": fz.get("verif_commit"), "what": "the registered checks as committed before this round's changes were produced (blind evaluation)", "reported_by": fz.get("reported_by", {}), "analysis_error_in": sorted(fz.get("analysis_error_in", {}))}
         meta["needs_to_manifest"] = meta.get("what_it_needs_to_manifest", meta.get("needs", ""))
         meta["confirmed_by_me"] = {
             "confirmed": bool(confirmed),
@@ -73,8 +87,8 @@ for prop in sorted(os.listdir(SRC)):
                 "analysis_error_in": [pid for pid, rc, _ in res if rc == 2],
                 "silent": [pid for pid, rc, _ in res if rc == 0],
             }
-            summary[f"{prop}/{m}"] = {"confirmed": bool(confirmed), "reported_by": meta["checks_run_against_it"]["reported_by"], "analysis_error_in": meta["checks_run_against_it"]["analysis_error_in"]}
-            print(prop, m, "confirmed" if confirmed else "UNCONFIRMED", "->", {k: v for k, v in meta["checks_run_against_it"]["reported_by"].items()}, "ERR:", meta["checks_run_against_it"]["analysis_error_in"])
+            summary[f"{prop}/{PREFIX}{m}"] = {"confirmed": bool(confirmed), "reported_by": meta["checks_run_against_it"]["reported_by"], "analysis_error_in": meta["checks_run_against_it"]["analysis_error_in"]}
+            print(prop, PREFIX + m, "confirmed" if confirmed else "UNCONFIRMED", "->", {k: v for k, v in meta["checks_run_against_it"]["reported_by"].items()}, "ERR:", meta["checks_run_against_it"]["analysis_error_in"])
         json.dump(meta, open(os.path.join(out, "meta.json"), "w"), indent=1)
 old = {}
 if os.path.exists("/verif/seeded/SUMMARY.json"):
